@@ -63,7 +63,7 @@ func (c *cluster) step(a vAct) {
 	recordAction(a)
 	c.tracef("%s", a)
 	switch a.A {
-	case "dlv", "dlvto", "dlvfrom", "dlvpair", "dlvamong", "dlvnewest", "settle":
+	case "dlv", "dlvto", "dlvfrom", "dlvpair", "dlvamong", "dlvnewest", "dlvexcept", "settle":
 		c.deliveryStep = c.net.gated
 	default:
 		c.deliveryStep = false
@@ -269,6 +269,15 @@ func (c *cluster) apply(a vAct) {
 		h1, h2 := hostOf(a.N), hostOf(a.M)
 		for i := 0; i < a.K; i++ {
 			if c.net.releaseNewest(h1, h2) == 0 {
+				break
+			}
+			synctest.Wait()
+		}
+	case "dlvexcept":
+		// everything but one connection (dialled by N to M with sequence number C)
+		h1, h2 := hostOf(a.N), hostOf(a.M)
+		for i := 0; i < a.K; i++ {
+			if c.net.releaseAllExcept(h1, h2, a.C) == 0 {
 				break
 			}
 			synctest.Wait()
